@@ -166,12 +166,15 @@ def run_scenarios(scs, procs=14):
         return pool.map(_run_one, scs, chunksize=max(1, len(scs) // (procs * 8)))
 
 
-def validate(prop, scs, ctx: Ctx, also=(), extra_cov=None):
+def validate(prop, scs, ctx: Ctx, also=(), extra_cov=None, extra_traces=()):
     """Run scenarios, validate traces with TLC, build the Outcome for property `prop`.
-    Clauses owned by `prop` or by a property in `also` are violations of `prop`; other clauses become notes."""
+    Clauses owned by `prop` or by a property in `also` are violations of `prop`; other clauses become notes.
+    ``extra_traces`` = already recorded executions [(trace, diag, scenario)] (guided replays of TLC behaviours)."""
     t0 = time.time()
     results = run_scenarios(scs)
     t_run = time.time() - t0
+    scs = list(scs) + [x[2] for x in extra_traces]
+    results = list(results) + [(x[0], x[1], None) for x in extra_traces]
     traces, keep = [], []
     out = Outcome(prop)
     nfail = 0
@@ -227,8 +230,10 @@ def validate(prop, scs, ctx: Ctx, also=(), extra_cov=None):
         if i < len(traces):
             samp.append({'scenario': {k: v for k, v in keep[i][0].items() if k != 'max_steps'},
                          'events': [{k: v for k, v in e.items() if v not in (0, [], '', False)} for e in traces[i]['ev'][:40]]})
+    ec = extra_cov or {}
     cov = {
-        'states': states, 'transitions': trans, 'traces_validated_against_impl': len(traces),
+        'states': states + ec.get('l2_states', 0), 'transitions': trans + ec.get('l2_transitions', 0),
+        'l1_trace_states': states, 'traces_validated_against_impl': len(traces),
         'evaluations': len(scs), 'distinct_nontrivial': len(nontrivial), 'events_validated': nev,
         'rule': 'one evaluation = one execution of the real runtime classes under the deterministic scheduler (one scenario: topology x '
                 'task programs x client scripts x schedule x optional crash); distinct = distinct L1 event sequences (hash of the ordered '
